@@ -18,6 +18,8 @@ type blockEvent struct {
 	Variant     string                 `json:"variant,omitempty"`
 	Class       string                 `json:"class,omitempty"`
 	Clamped     bool                   `json:"clamped,omitempty"`
+	// Pre (NegOn): the event is judged on this state (an edited copy of the live state), not on the history's
+	Pre *absstate.State `json:"pre,omitempty"`
 	Blk         *absstate.Block        `json:"blk"`
 	Oracle      map[string]interface{} `json:"oracle"`
 	Accepted    bool                   `json:"accepted"`
@@ -44,6 +46,26 @@ func (r *Recorder) StateTransition(ctx context.Context, spec *common.Spec, epc *
 // state and context and logs it as a Neg event: the history does not advance.  The copy gets its own
 // pubkey cache (the variant may carry deposits the real chain never sees).  The returned error is zrnt's.
 func (r *Recorder) NegBlock(ctx context.Context, spec *common.Spec, epc *common.EpochsContext, state common.BeaconState, env *common.BeaconBlockEnvelope, variant, class string) error {
+	return r.negBlock(ctx, spec, epc, state, env, variant, class, false)
+}
+
+// NegBlockOn is NegBlock on a state of the caller's own making (e.g. a copy of the live state whose registry
+// was edited to put a validator exactly at a boundary): the event carries the projection of that state
+// ("pre") and is judged on it instead of on the history's current state.
+func (r *Recorder) NegBlockOn(ctx context.Context, spec *common.Spec, epc *common.EpochsContext, state common.BeaconState, env *common.BeaconBlockEnvelope, variant, class string) error {
+	return r.negBlock(ctx, spec, epc, state, env, variant, class, true)
+}
+
+func (r *Recorder) negBlock(ctx context.Context, spec *common.Spec, epc *common.EpochsContext, state common.BeaconState, env *common.BeaconBlockEnvelope, variant, class string, withPre bool) error {
+	r.negPre = nil
+	if withPre {
+		abs, err := absstate.Project(spec, state)
+		if err != nil {
+			return err
+		}
+		r.negPre = abs
+	}
+	defer func() { r.negPre = nil }()
 	inner, err := absstate.Unwrap(state).CopyState()
 	if err != nil {
 		return err
@@ -154,7 +176,7 @@ func (r *Recorder) transition(ctx context.Context, spec *common.Spec, epc *commo
 	if err != nil {
 		return err
 	}
-	ev := &blockEvent{Ev: kind, Variant: variant, Class: class, Oracle: oracle, ExpectValid: r.ExpectValid}
+	ev := &blockEvent{Ev: kind, Variant: variant, Class: class, Oracle: oracle, ExpectValid: r.ExpectValid, Pre: r.negPre}
 	var ret error
 	func() {
 		defer func() {
